@@ -15,9 +15,9 @@ def main():
     T = q["threads"]
     R = q["rounds"]
 
-    def run(j, v=1000):
+    def run(j, v=10000):
         """{v} in a job text is a per-call varying isotope (1000..1996): a stream of ever new bracket atoms, so that
-        bounded caches keep evicting; results are compared after renaming it"""
+        bounded caches keep evicting; results are compared after renaming it (10000..18998, a range no other number in an output falls into)"""
         fl = j.get("flags", {})
         text = j["text"].replace("{v}", str(v))
         try:
@@ -45,7 +45,7 @@ def main():
                 # first-ever call at the same moment
                 idx = (k + t) % len(jobs) if rotate else k
                 n += 1
-                results[t].append((idx, run(jobs[idx], 1000 + (n * 7 + t * 131) % 997)))
+                results[t].append((idx, run(jobs[idx], 10000 + (n * 7 + t * 1301) % 8999)))
 
     sys.setswitchinterval(1e-6)
     ths = [threading.Thread(target=worker, args=(t,), daemon=True) for t in range(T)]
